@@ -126,9 +126,55 @@ def scenario(ctx, job):
     ctx.sample({'scenario': name, 'paths': len(res)})
 
 
+def rebalance_scenario(ctx, job):
+    """after a failover whose failed proxy is still down (no spare / ordered-proxy mode, where only the failure report
+    records it) a rebalance must not hand masters back to that proxy, and must not change who owns a slot"""
+    def run(e):
+        b = Broker(e); b.new_store(ordered=job['ordered'])
+        n = job['chunks']
+        b.add_proxies([n, n])                       # no spare proxy: the failed one cannot be replaced
+        r = b.add_cluster(4 * n); assert r.variant == 0, r
+        b.symbolise_epochs()
+        members = cluster_proxies(b)
+        victim = members[e.choose(len(members), 'victim')]
+        b.mark_initial()
+        if job['report']: b.call('add_failure', RStr(victim), RStr('reporter1'))
+        b.call('replace_failed_proxy', RStr(victim), 0)
+        mid = b.dec_cluster(b.view_cluster(0))
+        r = b.call('balance_masters', RStr('c1'))
+        post = b.dec_cluster(b.view_cluster(0))
+        s = z3.BitVec('slot', 64)
+        def wit(m): return {'ordered_proxy_mode': job['ordered'], 'failure_reported': job['report'], 'victim': victim, 'balance_result': repr(r)[:60],
+                            'before_balance': [(x['address'], x['proxy'], x['role']) for x in mid['nodes']], 'after_balance': [(x['address'], x['proxy'], x['role']) for x in post['nodes']]}
+        items = []
+        for x in post['nodes']:
+            if x['proxy'] == victim:
+                items.append(('failed-proxy-has-no-master-after-rebalance', 'C06/rebalance-returns-masters-to-failed-proxy', x['role'] != 'Master', wit))
+        # ownership of a chunk that contains the failed proxy is untouched by the rebalance
+        after = {x['address']: rs for x, rs in owners(post, ('None', 'Migrating'))}
+        for x, rs in owners(mid, ('None', 'Migrating')):
+            if not rs: continue
+            chunk_has_victim = x['proxy'] == victim or any(p[1] == victim for p in x['peers'])
+            if chunk_has_victim:
+                items.append(('owner-in-failed-chunk-unchanged', 'C06/rebalance-moves-slots-of-failed-chunk', z3.Implies(zbool(in_ranges(s, rs)), zbool(in_ranges(s, after.get(x['address'], [])))), wit))
+        def rp(m):
+            r = b.replay_spec(m, ('partition', 'rebalance'), (0,)); r['spec']['failed_proxy'] = victim
+            return r
+        ctx.require_all(e, items, assuming=[z3.ULT(s, SLOT_NUM)], replay=rp)
+        _check_views(b, ctx, e, (0,), 'after rebalance', None, rp)
+        return 3
+    res = ctx.explore('rebalance after failover ordered=%s report=%s chunks=%d' % (job['ordered'], job['report'], job['chunks']), run)
+    ctx.ops += sum(p.value or 0 for p in res if p.kind == 'ok')
+
+
+def worker(ctx, job):
+    if job.get('kind') == 'rebalance': rebalance_scenario(ctx, job)
+    else: scenario(ctx, job)
+
+
 def run(ctx):
     quick = ctx.tier == 'quick'
-    jobs = []
+    jobs = [{'kind': 'rebalance', 'ordered': o, 'report': rep, 'chunks': c} for o in (False, True) for rep in (True, False) for c in ((1, 2) if not quick else (1,)) if (rep or not o)]
     for (a, bb) in ([(1, 1), (1, 2), (2, 1)] if quick else [(1, 1), (2, 2), (1, 2), (2, 1), (2, 3), (3, 2), (1, 3)]):
         shapes = [list(range(2 * a))] if quick else [list(range(2 * a))] + [s for s in owner_shapes(2 * a, 2) if len(s) == 2 * a + 1][:3]
         for sh in shapes:
@@ -136,9 +182,9 @@ def run(ctx):
                 jobs.append({'from': a, 'to': bb, 'shape': sh, 'spare': spare, 'roles': True})
                 if a != bb and (not quick):
                     jobs.append({'from': a, 'to': bb, 'shape': sh, 'spare': spare, 'roles': False, 'roles_after': True})
-    ctx.bounds = {'slot_num': SLOT_NUM, 'resize in flight (chunks)': sorted(set((j['from'], j['to']) for j in jobs)), 'jobs': len(jobs),
+    ctx.bounds = {'slot_num': SLOT_NUM, 'resize in flight (chunks)': sorted(set((j['from'], j['to']) for j in jobs if 'from' in j)), 'jobs': len(jobs), 'rebalance after failover': 'default and ordered-proxy mode, with / without a pending failure report, 1-2 chunks',
                   'symbolic': 'tile boundaries, epochs, probe slot', 'enumerated': 'role position of every chunk, failing proxy, spare available or not'}
     ctx.assumptions += ['the chunk partner of the failing proxy is healthy (one failover at a time; the pre-state may already contain earlier role changes)',
                         'a re-issue (newer migration epoch) is required exactly for migrations whose addresses change']
     ctx.not_explored += ['both proxies of one chunk failed', 'more than 3 chunks']
-    ctx.run_parallel(jobs, scenario)
+    ctx.run_parallel(jobs, worker)
